@@ -291,6 +291,33 @@ theorem proveMerge_length {D : Type} (hn' : D → D → D) (k : Nat) : ∀ (rest
     · have := ih (hn' nx.2 c); simp; omega
     · simp
 
+/-- `copy(make([]T, len(src)), src)` is `src` -/
+theorem copy_replicate_self {α : Type} (d : α) (l : List α) : copy (List.replicate (len l).toNat d) l = l := by
+  simp [copy, len]
+
+theorem set_getD_self {α : Type} (d : α) : ∀ (l : List α) (i : Nat), l.set i (l.getD i d) = l := by
+  intro l
+  induction l with
+  | nil => intro i; simp
+  | cons a l ih =>
+    intro i
+    cases i with
+    | zero => rfl
+    | succ i =>
+      show a :: l.set i (l.getD i d) = a :: l
+      rw [ih i]
+
+/-- the copying loop at the end of `Prove` (`proofSet[i] = append(proofSet[i][:0:0], proofSet[i]...)`) does not change the value -/
+theorem proveLoop3_id : ∀ (idx : List Nat) (l : List B), Prove.loop3 hl hn idx l = l := by
+  intro idx
+  induction idx with
+  | nil => intro l; rfl
+  | cons i idx ih =>
+    intro l
+    unfold Prove.loop3
+    simp only [setAt, index, Int.toNat_natCast, Int.ofNat_eq_natCast]
+    rw [set_getD_self, ih]
+
 /-- what `Prove` returns, as a function of the model's answer: the proof set is `leaf :: siblings`, nil when the model has no leaf -/
 def proveOut (r : Option B × Option B × List B × Nat × Nat) : Option B × Option (List B) × Nat × Nat :=
   (r.1, (match r.2.1 with | none => none | some lf => some (lf :: r.2.2.1)), r.2.2.2.1, r.2.2.2.2)
@@ -304,7 +331,7 @@ theorem prove_eq (g : GTree) (f1 f2 f3 f4 : Nat) (hinv : Inv g)
   have hr1 := root_eq hl hn g f1 hnn h1
   have hr4 := root_eq hl hn g f4 hnn h4
   unfold Prove
-  simp only [hr1, hr4]
+  simp only [hr1, hr4, copy_replicate_self, proveLoop3_id]
   cases hh : g.head with
   | nil =>
     have : (abs g).stack = [] := by simp [abs, hh, absStack]
@@ -638,23 +665,23 @@ theorem bndRun_init (p : Nat) (pt : Bool) (F : Nat) (hF : 63 ≤ F) : ∀ (ops :
 theorem makeBytes_length (seg : Int) : (makeBytes seg).length = seg.toNat := by simp [makeBytes]
 
 theorem rf_nil (seg : Int) (hs : 0 < seg) :
-    readFull [] (makeBytes seg) = ([], makeBytes seg, 0, Err.sentinel "io.EOF") := by
+    GV.Gen.Imp.MerkleTree.readFull [] (makeBytes seg) = ([], makeBytes seg, 0, Err.sentinel "io.EOF") := by
   have : (makeBytes seg).length ≠ 0 := by rw [makeBytes_length]; omega
-  simp [readFull, this]
+  simp [GV.Gen.Imp.MerkleTree.readFull, this]
 
 theorem rf_short (seg : Int) (r : B) (h0 : r ≠ []) (hlt : r.length < seg.toNat) :
-    readFull r (makeBytes seg) = ([], r ++ (makeBytes seg).drop r.length, len r, Err.sentinel "io.ErrUnexpectedEOF") := by
+    GV.Gen.Imp.MerkleTree.readFull r (makeBytes seg) = ([], r ++ (makeBytes seg).drop r.length, len r, Err.sentinel "io.ErrUnexpectedEOF") := by
   have h1 : (makeBytes seg).length ≠ 0 := by rw [makeBytes_length]; omega
   have h2 : r.length ≠ 0 := by simpa using h0
   have h3 : r.length < (makeBytes seg).length := by rw [makeBytes_length]; exact hlt
-  simp [readFull, h1, h2, h3]
+  simp [GV.Gen.Imp.MerkleTree.readFull, h1, h2, h3]
 
 theorem rf_full (seg : Int) (hs : 0 < seg) (r : B) (hge : seg.toNat ≤ r.length) :
-    readFull r (makeBytes seg) = (r.drop seg.toNat, r.take seg.toNat, len (makeBytes seg), Err.nil) := by
+    GV.Gen.Imp.MerkleTree.readFull r (makeBytes seg) = (r.drop seg.toNat, r.take seg.toNat, len (makeBytes seg), Err.nil) := by
   have h1 : (makeBytes seg).length ≠ 0 := by rw [makeBytes_length]; omega
   have h2 : r.length ≠ 0 := by omega
   have h3 : ¬ r.length < (makeBytes seg).length := by rw [makeBytes_length]; omega
-  unfold readFull
+  unfold GV.Gen.Imp.MerkleTree.readFull
   rw [if_neg h1, if_neg h2, if_neg h3, makeBytes_length]
 
 theorem chunks_fuel (s : Nat) (hs : 0 < s) : ∀ (f1 f2 : Nat) (bs : List UInt8), bs.length ≤ f1 → bs.length ≤ f2 →
